@@ -44,7 +44,7 @@ CHECKS = {
          "Random maps of 0-8 keys over the conventional key alphabet to arbitrary byte strings (quotes, backquotes, newlines, invalid UTF-8); nil/empty maps.",
          TB, "5 C17"),
  "C19": ("exploration", "runtime monitor: import declarations and doc comment groups of the parsed output over the complete cgo combination matrix",
-         "All 72,600 combinations of {Qual C, Anon C before/after preambles} x subsets/orders of 6 preamble kinds (one repeats another) x 10 other-import shapes (incl. paths sorting before \"C\") x prefix x 5 hint kinds naming \"C\", formatted and NoFormat — enumerated completely in both tiers.",
+         "All 148,800 combinations of {Qual C, Anon C before/after preambles} x subsets/orders of 7 preamble kinds (one repeats another, one is the empty string) x 10 other-import shapes (incl. paths sorting before \"C\") x prefix x 5 hint kinds naming \"C\", formatted and NoFormat — enumerated completely in both tiers.",
          TB, "5 C19"),
  "C20": ("exploration", "runtime monitor: offline checker over recorded clone/append histories against a list model (live and snapshot views admitted)",
          "Random histories over a tree of cloned Statement handles (incl. clones of still-empty originals) with capacity-aware appends; after every step every handle is rendered (Render and inside a File) and tokenised; an unmodified clone must equal its original at every step (2,500 / 30,000 histories; the thorough tier runs under the race detector).",
